@@ -224,6 +224,10 @@ def run(cx):
     )
     tier = cx.tier
 
+    # ---- C06-E2E: accepted corpus scripts compile ------------------------------------------------
+    from .. import e2e
+    e2e.rule_compiles(cx, "C06-E2E", (pm, pm.func("parse")))
+
     # ---- C06-SNIPPETS ------------------------------------------------------------------------
     r = cx.rule("C06-SNIPPETS", "the list/len/LCD helper templates type-check when instantiated for int, float and String elements and both LCD classes", floor=4)
     lst = lit.table(em, "LIST_HELPER_SNIPPET")
